@@ -63,7 +63,7 @@ def check(ctx):
     _cover(ctx, ev)
     return ctx.finish(
         rule='cases: (i) every pair of the model enumerated by TLC, (ii) random pairs for every length pair 0..9 x 0..9, |coeff| <= 9, Polynomial<Rat>/<f64>/<Cmplx> rotating, '
-             'by-reference and consuming forms, (iii) rational coefficients, (iv) zero polynomials / leading zeros / cancelling sums, (v) the same object on both sides of every by-reference operator and chained expressions, (vi) sequences on ONE object: every observer, a mutator (IndexMut, coeffs() assignment / push / pop, trim), the same observers with the same arguments again - judged against the current coefficients, (vii) single writes that flip the zero-ness (zero <-> non-zero, empty -> push) with is_zero() / degree() / size() / eval observed twice before and after each write, (viii) histories and moves: operands built through histories (Vec::with_capacity + push, coeffs().pop / truncate / clear + refill, trim after padding, index writes, results of earlier operations), every observer called on the operand, the operand ITSELF consumed by / passed to every consuming and by-reference operation in both positions, every observer called on the result, (ix) refused calls (eval / derivative / trim of the empty polynomial, index out of range, polydiv by zero, roots of degree 0) immediately followed on the same thread by the ordinary battery, twice. One event per public call; '
+             'by-reference and consuming forms, (iii) rational coefficients, (iv) zero polynomials / leading zeros / cancelling sums, (v) the same object on both sides of every by-reference operator and chained expressions, (vi) sequences on ONE object: every observer, a mutator (IndexMut, coeffs() assignment / push / pop, trim), the same observers with the same arguments again - judged against the current coefficients, (vii) single writes that flip the zero-ness (zero <-> non-zero, empty -> push) with is_zero() / degree() / size() / eval observed twice before and after each write, (viii) histories and moves: operands built through histories (Vec::with_capacity + push, coeffs().pop / truncate / clear + refill, trim after padding, index writes, results of earlier operations), every observer called on the operand, the operand ITSELF consumed by / passed to every consuming and by-reference operation in both positions, every observer called on the result, (ix) refused calls (eval / derivative / trim of the empty polynomial, index out of range, polydiv by zero, roots of degree 0) immediately followed on the same thread by the ordinary battery, twice, (x) two live objects related by Clone (clone, `&p + &empty`, clone after observers, clone of a clone, a clone that outlives its original): mutators and observers interleaved on both, the observers with the same arguments on one and then the other, each judged against its own model (event field obj). One event per public call; '
              'non-trivial = a non-empty operand or a panic; distinct = distinct (operation, operands, arguments, outcome).',
         trusted=['harness projection of Polynomial<T> through size() and Index (harness/src/suites/poly.rs)', 'TLC', 'Poly.tla operators as reference definitions'])
 
